@@ -515,7 +515,7 @@ class SCML_Supervised(_BaseSCML, TransformerMixin):
     self.k_genuine = k_genuine
     self.k_impostor = k_impostor
     _BaseSCML.__init__(self, beta=beta, basis=basis, n_basis=n_basis,
-                       max_iter=max_iter, output_iter=output_iter,
+                       gamma=gamma, max_iter=max_iter, output_iter=output_iter,
                        batch_size=batch_size, verbose=verbose,
                        preprocessor=preprocessor, random_state=random_state)
 
